@@ -345,3 +345,65 @@ Theorem C13_source_min_max_no_maximum r w h minw minh :
     GM.qeq2 (mmar r w h minw minh None None) (mmar r w h minw minh (Some Mw) (Some Mh)).
 Proof. exact (GM.mmar_no_max r w h minw minh). Qed.
 Print Assumptions C13_source_min_max_no_maximum.
+
+(* ---- replacedbox_layout (object-fit / object-position) of weasyprint/layout/replaced.py REGENERATED from the source
+   on every run (gen/GenReplacedBox.v) returns exactly the quadruple of the model rb_layout used by the
+   object-fit / object-position theorems above, for every None / number pattern of the intrinsic size, the five
+   object-fit keywords, both origins and px / % positions on each axis, and raises ZeroDivisionError (a zero ratio)
+   exactly when the model is None.  g answers image.get_intrinsic_size (outside the translated subset) with the
+   triple i; GL.layout_callees g answers every other call with the callee's own regenerated body:
+   contain_/cover_constraint_image_sizing -> _constraint_image_sizing (gen/GenReplaced.v), percentage
+   (gen/GenPercent.v), Box.content_box_x / content_box_y (gen/GenBoxes.v).
+   GLT.lbox: the box (width, height, replacement, style[object_fit, object_position, image_resolution, font_size],
+   position_x/y and the left / top margin, padding, border);  GL.vlay: the four numbers, or the raised exception. *)
+Require WV.proofs.C13_gen_layout_tail WV.proofs.C13_gen_layout WV.proofs.C13_gen_layout_prop.
+Module GLT := WV.proofs.C13_gen_layout_tail.
+Module GL := WV.proofs.C13_gen_layout.
+Module GLP := WV.proofs.C13_gen_layout_prop.
+
+Theorem C13_source_replacedbox_layout (g : list Py.val -> Py.val) imgf rs fs i f rgt btm px py
+        bw bh posx posy ml mt pl pt bl bt :
+  g [Py.VObj imgf; Py.VNum rs; Py.VNum fs] = GT.vintr i ->
+  PyLink.call_body (Py.with_calls Py.real_ops (GL.layout_callees g))
+    (GenReplacedBox.replacedbox_layout_args, GenReplacedBox.replacedbox_layout_body)
+    [GLT.lbox f rgt btm px py bw bh imgf rs fs posx posy ml mt pl pt bl bt]
+  = GL.vlay (rb_layout f rgt btm px py bw bh i (posx + ml + pl + bl) (posy + mt + pt + bt)).
+Proof. exact (GL.gen_replacedbox_layout_value g imgf rs fs i f rgt btm px py bw bh posx posy ml mt pl pt bl bt). Qed.
+Print Assumptions C13_source_replacedbox_layout.
+
+(* the property clause the function carries, about the regenerated source itself (GLP.src_layout g box: the call
+   above): for an image of known intrinsic size w x h and ratio r (r > 0, w = h r) it returns four numbers
+   (draw_width, draw_height, x, y) such that
+   GLP.fit_clause: fill -> the content box size; contain -> inside the content box, touching two opposite edges,
+     ratio kept (contained); cover -> covers it, touching, ratio kept (covering); none -> the intrinsic size;
+     scale-down -> the smaller of none and contain;
+   GLP.position_clause far p area img pos (pos = x - content_box_x): a percentage p aligns the point at p% of the image
+     with the point at p% of the content box, measured from the far edge for right / bottom origins (it resolves
+     against the free space area - img); a length q is the offset from that edge. *)
+Theorem C13_source_painted_rectangle (g : list Py.val -> Py.val) imgf rs fs f rgt btm px py
+        bw bh posx posy ml mt pl pt bl bt w h r :
+  g [Py.VObj imgf; Py.VNum rs; Py.VNum fs] = GT.vintr (Intr (Some w) (Some h) (Some r)) -> (0 < r)%Q -> (w == h * r)%Q ->
+  exists dw dh x y,
+    GLP.src_layout g (GLT.lbox f rgt btm px py bw bh imgf rs fs posx posy ml mt pl pt bl bt)
+      = Py.VList [Py.VNum dw; Py.VNum dh; Py.VNum x; Py.VNum y] /\
+    GLP.fit_clause f bw bh w h r dw dh /\
+    GLP.position_clause rgt px bw dw (x - (posx + ml + pl + bl))%Q /\
+    GLP.position_clause btm py bh dh (y - (posy + mt + pt + bt))%Q.
+Proof.
+  exact (GLP.source_painted_rectangle g imgf rs fs f rgt btm px py bw bh posx posy ml mt pl pt bl bt w h r).
+Qed.
+Print Assumptions C13_source_painted_rectangle.
+
+(* contain / cover need only the ratio (intrinsic width or height may be unknown) *)
+Theorem C13_source_contain_cover (g : list Py.val -> Py.val) imgf rs fs i (cover : bool) rgt btm px py
+        bw bh posx posy ml mt pl pt bl bt r :
+  g [Py.VObj imgf; Py.VNum rs; Py.VNum fs] = GT.vintr i -> ir i = Some r -> (0 < r)%Q ->
+  exists dw dh x y,
+    GLP.src_layout g
+      (GLT.lbox (if cover then Cover else Contain) rgt btm px py bw bh imgf rs fs posx posy ml mt pl pt bl bt)
+      = Py.VList [Py.VNum dw; Py.VNum dh; Py.VNum x; Py.VNum y] /\
+    (if cover then covering bw bh r dw dh else contained bw bh r dw dh).
+Proof.
+  exact (GLP.source_contain_cover g imgf rs fs i cover rgt btm px py bw bh posx posy ml mt pl pt bl bt r).
+Qed.
+Print Assumptions C13_source_contain_cover.
